@@ -2369,6 +2369,14 @@ sexp sexp_apply (sexp ctx, sexp proc, sexp args) {
     if (sexp_context_refuel(root_thread) <= 0) {
       /* the root already terminated */
       _ARG1 = sexp_context_result(root_thread);
+    } else if (top > 1 && !sexp_exceptionp(_ARG1)) {
+      /* This isn't the end of the thread but of a procedure it was
+         running for a C function (a nested sexp_apply) which is below
+         the current one on the C stack, so we can't return to it
+         yet.  Let the others run and try again. */
+      ip--;
+      fuel = 0;
+      goto loop;
     } else {
       /* don't return from child threads */
       if (sexp_exceptionp(_ARG1)) {
